@@ -460,3 +460,140 @@ where
         _ => None,
     })
 }
+
+// ---------------------------------------------------------------------------
+// Miscellaneous public operations that only the profile pair (C11) exercises:
+// shifts of F by the 12 integer types, signum, next_power_of_two, Sum / Product,
+// bit operations and counting functions. `sel` picks the operation.
+
+pub const MISC: u16 = 31;
+pub const MISC_NAMES: [&str; 6] = ["shift", "signum", "next_power_of_two", "sum", "product", "bits"];
+
+fn run_misc_common<F: VF>(st: usize, sel: u128, ar: u128, br: u128, outs: &mut Outs)
+where
+    F::Bits: Copy,
+{
+    let a = F::from_raw(ar);
+    let b = F::from_raw(br);
+    match sel & 0xff {
+        0 => {
+            let kind = ((sel >> 8) & 0xff) as usize % 12;
+            let right = (sel >> 16) & 1 == 1;
+            let form = ((sel >> 20) % 6) as u8;
+            // the amount as the primitive conversion `as u32` sees it (low 32 bits of the two's complement)
+            let n32 = lay::with_int!(kind, T => <T as lay::IntRaw>::from_raw(br) as u32);
+            step!(st, outs, 0, "plain", v(F::f_shift(a, kind, br, right, form)));
+            if right {
+                step!(st, outs, 1, "checked", o(a.checked_shr(n32)));
+                step!(st, outs, 2, "wrapping", v(a.wrapping_shr(n32)));
+                step!(st, outs, 3, "overflowing", fl(a.overflowing_shr(n32)));
+            } else {
+                step!(st, outs, 1, "checked", o(a.checked_shl(n32)));
+                step!(st, outs, 2, "wrapping", v(a.wrapping_shl(n32)));
+                step!(st, outs, 3, "overflowing", fl(a.overflowing_shl(n32)));
+            }
+        }
+        3 | 4 => {
+            let c3 = F::from_raw(ar ^ br.rotate_left(17));
+            let items = [a, b, c3];
+            let n = 1 + ((sel >> 8) % 3) as usize;
+            let items = &items[..n.min(3)];
+            let items: &[F] = if (sel >> 12) & 3 == 0 { &[] } else { items };
+            if sel & 0xff == 3 {
+                step!(st, outs, 0, "plain", v(F::f_sum(items, false)));
+                step!(st, outs, 1, "ref", v(F::f_sum(items, true)));
+                step!(st, outs, 2, "overflowing", {
+                    let mut acc = F::from_raw(0);
+                    let mut ovf = false;
+                    for it in items {
+                        let (r, o2) = acc.overflowing_add(*it);
+                        acc = r;
+                        ovf |= o2;
+                    }
+                    Out::F(acc.raw(), ovf)
+                });
+            } else {
+                step!(st, outs, 0, "plain", v(F::f_product(items, false)));
+                step!(st, outs, 1, "ref", v(F::f_product(items, true)));
+                step!(st, outs, 2, "overflowing", {
+                    let mut it = items.iter();
+                    match it.next() {
+                        None => {
+                            let (one, o1) = F::overflowing_from_num(1);
+                            Out::F(one.raw(), o1)
+                        }
+                        Some(first) => {
+                            let mut acc = *first;
+                            let mut ovf = false;
+                            for x in it {
+                                let (r, o2) = acc.overflowing_mul(*x);
+                                acc = r;
+                                ovf |= o2;
+                            }
+                            Out::F(acc.raw(), ovf)
+                        }
+                    }
+                });
+            }
+        }
+        5 => {
+            let n = (br & 0xffff_ffff) as u32;
+            step!(st, outs, 0, "and", v(a & b));
+            step!(st, outs, 1, "or", v(a | b));
+            step!(st, outs, 2, "xor", v(a ^ b));
+            step!(st, outs, 3, "not", v(!a));
+            step!(st, outs, 4, "count_ones", Out::V(a.count_ones() as u128));
+            step!(st, outs, 5, "count_zeros", Out::V(a.count_zeros() as u128));
+            step!(st, outs, 6, "leading_zeros", Out::V(a.leading_zeros() as u128));
+            step!(st, outs, 7, "trailing_zeros", Out::V(a.trailing_zeros() as u128));
+            step!(st, outs, 8, "rotate_left", v(a.rotate_left(n)));
+            step!(st, outs, 9, "rotate_right", v(a.rotate_right(n)));
+            step!(st, outs, 10, "and_ref", v(F::ref_op(a, b, 5, 0)));
+            step!(st, outs, 11, "or_assign", v(F::ref_op(a, b, 6, 3)));
+            step!(st, outs, 12, "xor_assign_ref", v(F::ref_op(a, b, 7, 4)));
+            step!(st, outs, 13, "not_ref", v(F::ref_un(a, 1)));
+            step!(st, outs, 14, "min_value", v(F::min_value()));
+            step!(st, outs, 15, "max_value", v(F::max_value()));
+            step!(st, outs, 16, "nbits", Out::V((F::int_nbits() as u128) << 32 | F::frac_nbits() as u128));
+        }
+        _ => {}
+    }
+}
+
+pub fn run_misc_signed<F: VF + FixedSigned>(st: usize, sel: u128, ar: u128, br: u128, outs: &mut Outs)
+where
+    F::Bits: Copy,
+{
+    let a = F::from_raw(ar);
+    match sel & 0xff {
+        1 => {
+            step!(st, outs, 0, "plain", v(a.signum()));
+            step!(st, outs, 1, "overflowing", {
+                let (r, o2) = if a.is_positive() { F::overflowing_from_num(1) } else if a.is_negative() { F::overflowing_from_num(-1) } else { (F::from_raw(0), false) };
+                Out::F(r.raw(), o2)
+            });
+            step!(st, outs, 2, "is_positive", Out::B(a.is_positive()));
+            step!(st, outs, 3, "is_negative", Out::B(a.is_negative()));
+        }
+        _ => run_misc_common::<F>(st, sel, ar, br, outs),
+    }
+}
+
+pub fn run_misc_unsigned<F: VF + FixedUnsigned>(st: usize, sel: u128, ar: u128, br: u128, outs: &mut Outs)
+where
+    F::Bits: Copy,
+{
+    let a = F::from_raw(ar);
+    match sel & 0xff {
+        2 => {
+            step!(st, outs, 0, "plain", v(a.next_power_of_two()));
+            step!(st, outs, 1, "checked", o(a.checked_next_power_of_two()));
+            step!(st, outs, 2, "overflowing", {
+                let c = a.checked_next_power_of_two();
+                Out::F(c.map(|x| x.raw()).unwrap_or(0), c.is_none())
+            });
+            step!(st, outs, 3, "is_power_of_two", Out::B(a.is_power_of_two()));
+        }
+        _ => run_misc_common::<F>(st, sel, ar, br, outs),
+    }
+}
